@@ -31,6 +31,7 @@ use crate::Report;
 use melda::melda::{DeltaId, Melda};
 use serde_json::{json, Value};
 use std::collections::{BTreeSet, HashMap};
+use std::sync::Arc;
 
 const F: &str = "\u{266D}";
 
@@ -187,6 +188,20 @@ pub fn build(long: bool) -> Result<Hist, String> {
     if keys.len() > 16 {
         return Err("source history: more than 16 item files".into());
     }
+    // file indices in label order: item names depend on the hash-map order inside a pack (different in every
+    // process), labels do not, so a seed selects the same delivery orders in every run
+    let mut perm: Vec<usize> = (0..keys.len()).collect();
+    perm.sort_by(|x, y| labels[*x].cmp(&labels[*y]));
+    let pos = |old: usize| if old == usize::MAX { usize::MAX } else { perm.iter().position(|p| *p == old).unwrap() };
+    for b in blocks.iter_mut() {
+        b.file = pos(b.file);
+        for p in b.packs.iter_mut() {
+            *p = pos(*p);
+        }
+    }
+    let labels: Vec<String> = perm.iter().map(|i| labels[*i].clone()).collect();
+    let bytes: Vec<Vec<u8>> = perm.iter().map(|i| bytes[*i].clone()).collect();
+    let keys: Vec<String> = perm.iter().map(|i| keys[*i].clone()).collect();
     Ok(Hist { name: if long { "long".into() } else { "base".into() }, labels, keys, bytes, blocks })
 }
 
@@ -455,22 +470,38 @@ fn work(thorough: bool, seed: u64, out: &Out) {
         }
         return;
     }
-    // thorough
-    let mut count = 0u64;
-    if n <= 8 {
-        for p in orch::permutations(n) {
-            run_order(&base, &mut memo, &p, out);
-            count += 1;
-        }
-        out.note(&format!("base history: {} files, all {} delivery orders", n, count));
-    } else {
-        for _ in 0..20000 {
+    // thorough: the orders are spread over sub-workers (each with its own memo of expected states)
+    let workers: usize = std::env::var("MELDA_VERIF_WORKERS").ok().and_then(|s| s.parse().ok()).unwrap_or(3);
+    let spread = |h: &Arc<Hist>, orders: Vec<Vec<usize>>, out: &Out| {
+        let h = h.clone();
+        orch::fan_out(out, workers, orders, move |part: Vec<Vec<usize>>, out: &Out| {
+            let mut memo: HashMap<u32, Expect> = HashMap::new();
+            for o in &part {
+                run_order(&h, &mut memo, o, out);
+            }
+        });
+    };
+    let seeded = |n: usize, count: usize, rng: &mut Rng| -> Vec<Vec<usize>> {
+        let mut seen: BTreeSet<Vec<usize>> = BTreeSet::new();
+        let mut out = vec![];
+        while out.len() < count {
             let mut order: Vec<usize> = (0..n).collect();
             rng.shuffle(&mut order);
-            run_order(&base, &mut memo, &order, out);
+            if seen.insert(order.clone()) {
+                out.push(order);
+            }
         }
-        out.note(&format!("base history: {} files, 20000 seeded delivery orders", n));
+        out
+    };
+    let base = Arc::new(base);
+    if n <= 8 {
+        let orders = orch::permutations(n);
+        out.note(&format!("base history: {} files, all {} delivery orders", n, orders.len()));
+        spread(&base, orders, out);
+    } else {
+        out.note(&format!("base history: {} files, 20000 distinct seeded delivery orders", n));
         out.not_exhaustive();
+        spread(&base, seeded(n, 20000, &mut rng), out);
     }
     for mask in 0..(1u32 << n) {
         listing_check(&base, mask, mask == (1u32 << n) - 1, out);
@@ -482,25 +513,16 @@ fn work(thorough: bool, seed: u64, out: &Out) {
         }
         Ok(long) => {
             out.case("history:long", true);
-            let mut memo: HashMap<u32, Expect> = HashMap::new();
+            let long = Arc::new(long);
             let n = long.n();
-            let perms = if n <= 8 { orch::permutations(n) } else { vec![] };
-            if !perms.is_empty() {
-                for p in &perms {
-                    run_order(&long, &mut memo, p, out);
-                }
-                out.note(&format!("long history: {} files, all {} delivery orders", n, perms.len()));
+            if n <= 8 {
+                let orders = orch::permutations(n);
+                out.note(&format!("long history: {} files, all {} delivery orders", n, orders.len()));
+                spread(&long, orders, out);
             } else {
-                let mut seen: BTreeSet<Vec<usize>> = BTreeSet::new();
-                while seen.len() < 20000 {
-                    let mut order: Vec<usize> = (0..n).collect();
-                    rng.shuffle(&mut order);
-                    if seen.insert(order.clone()) {
-                        run_order(&long, &mut memo, &order, out);
-                    }
-                }
                 out.note(&format!("long history: {} files, 20000 distinct seeded delivery orders", n));
                 out.not_exhaustive();
+                spread(&long, seeded(n, 20000, &mut rng), out);
             }
             listing_check(&long, (1u32 << n) - 1, true, out);
             for _ in 0..64 {
@@ -520,7 +542,7 @@ pub fn run(thorough: bool, seed: u64) -> Report {
             "one fixed source history (A: d1; B melds; A: d2a || B: d2b; A melds, d3 with parents {d2a,d2b}; 4 blocks + 4 packs = 8 item files): 600 seeded orders out of the 720 that deliver d1 and its pack first (both ways) followed by a permutation of the other 6 files, plus 120 seeded permutations of all 8 files, plus 150 seeded permutations of the 9 files of the same history extended by a pack-less block d4, into an empty adapter observed by one long-lived replica, refresh + 3 checks after every delivered file; listing-order variants (reversed, rotated by 1, rotated by half, sorted descending, child blocks first) on the full sets and 6 seeded subsets"
         })
         .to_string(),
-        "enumeration of delivery orders (seeded where stated); one case per order, step and check (refresh-vs-reload / causal / status) and per listing variant and file set; non-trivial = a delivered block is causally incomplete at this step or was at the previous one; 10 s watchdog",
+        "enumeration of delivery orders (seeded where stated); one case per order, step and check (refresh-vs-reload / causal / status) and per listing variant and file set; non-trivial = a delivered block is causally incomplete at this step or was at the previous one; 10 s watchdog per worker thread (thorough: orders spread over 3 threads)",
     );
     if std::env::var_os("RAYON_NUM_THREADS").is_none() {
         std::env::set_var("RAYON_NUM_THREADS", "2");
